@@ -3,12 +3,16 @@
 //! (valid PoW at regtest-style targets, real prev_blockhash links, real chainwork).
 //! ops (block hashes are mapped to small ids, genesis parent = 0):
 //!   tree                               new case
-//!   block <id> <parent> <height> <cumulative work>
+//!   block <id> <parent> <height> <chainwork> <header.bits> <header.work()> <full 0|1>
+//!   net <0|1>                          ChainPoller network: 0 = Regtest, 1 = Bitcoin (check_builds_on enforces the difficulty rules)
 //!   client <tip id>                    SpvClient::new(tip, ChainPoller(source, Regtest), HeaderCache::new(), &listener)
 //!   clientinit                         SpvClient::new(best, .., cache) from the last successful `init`
 //!   best <id>                          what get_best_block answers from now on
 //!   hidden <ids…>                      blocks the source does not know (header/block not found)
-//!   sched <request indices…>           requests (counted from 0 within the next poll/init) that fail
+//!   sched <k:kind…>                    what the source answered to request k (counted from 0 within the next poll/init):
+//!                                      t|p = Err, hash:<id> = another block's data, pow = a header failing PoW, height|work = claimed
+//!                                      height / chainwork off by one, merkle = full block with a wrong merkle root. The model gets the RAW
+//!                                      answer and must itself refuse it (translated Validate layer + check_builds_on).
 //!   poll <fingerprint>                 => "<common|better|worse|err> <tip|-> <0|1> r<requests the source saw> | D <id> <h> C <id> <h> …"
 //!   init <id:height:p1,p2,-,…>…        => "ok <best> r<requests> cache <ids…> | <listener 0 notifs> | …"  or "err r<requests> | …"
 use ldk_verif_harness::common::*;
@@ -84,7 +88,7 @@ impl Tree {
 #[derive(Clone, Copy, Debug, PartialEq)]
 enum Fail { Transient, Persistent, BadHash, BadPow, BadHeight, BadWork, BadMerkle }
 
-struct SrcState { req: usize, sched: BTreeMap<usize, Fail>, hidden: BTreeSet<usize>, best: usize, last_was_best: bool, init_mode: bool, triggered: Vec<(usize, String)> }
+struct SrcState { req: usize, sched: BTreeMap<usize, Fail>, hidden: BTreeSet<usize>, best: usize, last_was_best: bool, init_mode: bool, triggered: Vec<(usize, String, String)> }
 
 struct Source<'a> { tree: &'a Tree, st: Mutex<SrcState> }
 
@@ -110,7 +114,8 @@ impl<'a> BlockSource for Source<'a> {
 				// a lie about height/chainwork is only *defined* to be refused where check_builds_on runs
 				// (previous-header look-ups of the polling client); elsewhere serve another block instead.
 				let f = match f { Fail::BadHeight | Fail::BadWork | Fail::BadMerkle if after_best || st.init_mode => Fail::BadHash, Fail::BadMerkle => Fail::BadHash, x => x };
-				st.triggered.push((k, format!("{:?}", f)));
+				let tok = match f { Fail::Transient => "t".to_string(), Fail::Persistent => "p".to_string(), Fail::BadHash => format!("hash:{}", self.some_other(id)), Fail::BadPow => "pow".into(), Fail::BadHeight => "height".into(), Fail::BadWork => "work".into(), Fail::BadMerkle => "merkle".into() };
+				st.triggered.push((k, format!("{:?}", f), tok));
 				let mut d = self.tree.data(id);
 				match f {
 					Fail::Transient => return Err(terr("unresponsive")),
@@ -136,7 +141,8 @@ impl<'a> BlockSource for Source<'a> {
 			let b = self.tree.get(id);
 			if let Some(f) = fail {
 				let f = match f { Fail::BadHeight | Fail::BadWork => Fail::BadHash, Fail::BadMerkle if !b.full => Fail::BadPow, x => x };
-				st.triggered.push((k, format!("{:?}", f)));
+				let tok = match f { Fail::Transient => "t".to_string(), Fail::Persistent => "p".to_string(), Fail::BadHash => format!("hash:{}", self.some_other(id)), Fail::BadPow => "pow".into(), Fail::BadMerkle => "merkle".into(), _ => unreachable!() };
+				st.triggered.push((k, format!("{:?}", f), tok));
 				match f {
 					Fail::Transient => return Err(terr("unresponsive")),
 					Fail::Persistent => return Err(perr("refused")),
@@ -157,7 +163,7 @@ impl<'a> BlockSource for Source<'a> {
 			let k = st.req - 1;
 			st.last_was_best = true;
 			if let Some(f) = fail {
-				st.triggered.push((k, format!("{:?}", f)));
+				st.triggered.push((k, format!("{:?}", f), "t".into()));
 				return Err(if f == Fail::Transient { terr("unresponsive") } else { perr("refused") });
 			}
 			let b = self.tree.get(st.best);
@@ -249,7 +255,7 @@ fn fnv64(s: &str) -> u64 { let mut h = 0xcbf29ce484222325u64; for b in s.bytes()
 
 fn emit_tree(c: &mut Case, t: &Tree) {
 	c.dir("tree".into());
-	for b in &t.blocks { c.dir(format!("block {} {} {} {}", b.id, b.parent, b.height, b.work)); }
+	for b in &t.blocks { c.dir(format!("block {} {} {} {} {} {} {}", b.id, b.parent, b.height, b.work, b.header.bits.to_consensus(), work_u128(b.header.work()), b.full as u8)); }
 }
 
 fn depth_bucket(d: usize) -> &'static str { match d { 0 => "0", 1 => "1", 2..=3 => "2-3", 4..=12 => "4-12", 13..=100 => "13-100", 101..=1008 => "101-1008", _ => ">1008" } }
@@ -264,10 +270,15 @@ fn make_sched(g: &mut Gen, span: u64, p_num: u64) -> BTreeMap<usize, Fail> {
 	m
 }
 
+/// the `sched` directive: what the source ANSWERED at each scheduled request (effective kind as recorded by the source)
+fn sched_line(sched: &BTreeMap<usize, Fail>, triggered: &[(usize, String, String)]) -> String {
+	format!("sched{}", sched.keys().map(|k| match triggered.iter().find(|t| t.0 == *k) { Some(t) => format!(" {}:{}", k, t.2), None => format!(" {}:t", k) }).collect::<String>())
+}
+
 struct Stats { lower_work_after_interrupt: u64, lower_work_example: Option<String>, max_fork_depth: usize, cache_miss_walks: u64 }
 
 /// a sequence of polls of one SpvClient against a tree whose best tip moves between polls
-fn run_polls<'s, 't>(c: &mut Case, g: &mut Gen, t: &'t Tree, client: &mut SpvClient<ChainPoller<&'s Source<'t>, Source<'t>>, &'s RecListener<'t>>, src: &'s Source<'t>, listener: &'s RecListener<'t>, chain: &mut Vec<usize>, n_polls: u64, stats: &mut Stats, fail_p: u64) {
+fn run_polls<'s, 't>(c: &mut Case, g: &mut Gen, t: &'t Tree, client: &mut SpvClient<ChainPoller<&'s Source<'t>, Source<'t>>, &'s RecListener<'t>>, src: &'s Source<'t>, listener: &'s RecListener<'t>, chain: &mut Vec<usize>, n_polls: u64, stats: &mut Stats, fail_p: u64, bitcoin: bool) {
 	let all: Vec<usize> = t.blocks.iter().map(|b| b.id).collect();
 	let tips = t.tips();
 	for _ in 0..n_polls {
@@ -283,11 +294,12 @@ fn run_polls<'s, 't>(c: &mut Case, g: &mut Gen, t: &'t Tree, client: &mut SpvCli
 		} else { BTreeSet::new() };
 		c.dir(format!("best {}", best));
 		c.dir(format!("hidden{}", hidden.iter().map(|x| format!(" {}", x)).collect::<String>()));
-		c.dir(format!("sched{}", sched.keys().map(|x| format!(" {}", x)).collect::<String>()));
 		{ let mut st = src.st.lock().unwrap(); st.req = 0; st.sched = sched.clone(); st.hidden = hidden.clone(); st.best = best; st.triggered.clear(); st.init_mode = false; st.last_was_best = false; }
 		let r = guarded(AssertUnwindSafe(|| block_on(client.poll_best_tip())));
 		let evs = listener.take();
-		let (triggered, nreq) = { let st = src.st.lock().unwrap(); (st.triggered.clone(), st.req) };
+		let (triggered3, nreq) = { let st = src.st.lock().unwrap(); (st.triggered.clone(), st.req) };
+		c.dir(sched_line(&sched, &triggered3));
+		let triggered: Vec<(usize, String)> = triggered3.iter().map(|t| (t.0, t.1.clone())).collect();
 		let before = cur;
 		let op = format!("poll {:x}", c.fp);
 		let (head, kind) = match &r {
@@ -307,7 +319,7 @@ fn run_polls<'s, 't>(c: &mut Case, g: &mut Gen, t: &'t Tree, client: &mut SpvCli
 				let bid = t.by_hash[&h.header.block_hash()];
 				if t.get(bid).work <= t.get(before).work { c.rec.oracle_fail(describe("Better tip without strictly more work", c)); }
 				if !t.path(bid).contains(&after) { c.rec.oracle_fail(describe("listener left off the better chain", c)); }
-				if triggered.is_empty() && hidden.is_empty() && after != bid { c.rec.oracle_fail(describe("no source failure but the listener is not at the reported better tip", c)); }
+				if triggered.is_empty() && hidden.is_empty() && !bitcoin && after != bid { c.rec.oracle_fail(describe("no source failure but the listener is not at the reported better tip", c)); }
 				if evs.is_empty() { c.rec.oracle_fail(describe("reported blocks connected/disconnected but the listener saw nothing", c)); }
 			},
 			Ok(Ok((_, true))) => c.rec.oracle_fail(describe("Common/Worse tip reported as connected", c)),
@@ -359,7 +371,7 @@ fn locator_for(g: &mut Gen, t: &Tree, id: usize, bogus: bool) -> (BlockLocator, 
 }
 
 /// init::synchronize_listeners for several listeners at different (stale) blocks
-fn run_init<'t>(c: &mut Case, g: &mut Gen, t: &'t Tree, src: &Source, stats: &mut Stats, fail_p: u64) -> Option<(HeaderCache, ValidatedBlockHeader, usize)> {
+fn run_init<'t>(c: &mut Case, g: &mut Gen, t: &'t Tree, src: &Source, stats: &mut Stats, fail_p: u64, network: Network) -> Option<(HeaderCache, ValidatedBlockHeader, usize)> {
 	let all: Vec<usize> = t.blocks.iter().map(|b| b.id).collect();
 	let tips = t.tips();
 	let best = if g.rng.chance(4, 5) { *g.rng.pick(&tips) } else { *g.rng.pick(&all) };
@@ -379,14 +391,15 @@ fn run_init<'t>(c: &mut Case, g: &mut Gen, t: &'t Tree, src: &Source, stats: &mu
 	} else { BTreeSet::new() };
 	c.dir(format!("best {}", best));
 	c.dir(format!("hidden{}", hidden.iter().map(|x| format!(" {}", x)).collect::<String>()));
-	c.dir(format!("sched{}", sched.keys().map(|x| format!(" {}", x)).collect::<String>()));
 	{ let mut st = src.st.lock().unwrap(); st.req = 0; st.sched = sched.clone(); st.hidden = hidden.clone(); st.best = best; st.triggered.clear(); st.init_mode = true; st.last_was_best = false; }
 	let listeners: Vec<RecListener> = (0..n).map(|_| RecListener::new(t)).collect();
 	let r = guarded(AssertUnwindSafe(|| {
 		let pairs: Vec<(BlockLocator, &RecListener)> = locs.iter().zip(listeners.iter()).map(|(l, r)| (l.0, r)).collect();
-		block_on(init::synchronize_listeners(src, Network::Regtest, pairs))
+		block_on(init::synchronize_listeners(src, network, pairs))
 	}));
-	let (triggered, nreq) = { let st = src.st.lock().unwrap(); (st.triggered.clone(), st.req) };
+	let (triggered3, nreq) = { let st = src.st.lock().unwrap(); (st.triggered.clone(), st.req) };
+	c.dir(sched_line(&sched, &triggered3));
+	let triggered: Vec<(usize, String)> = triggered3.iter().map(|t| (t.0, t.1.clone())).collect();
 	let evs: Vec<Vec<Ev>> = listeners.iter().map(|l| l.take()).collect();
 	let op = format!("init {}", locs.iter().map(|l| l.1.clone()).collect::<Vec<_>>().join(" "));
 	let mut segs = vec![];
@@ -430,9 +443,12 @@ fn run_init<'t>(c: &mut Case, g: &mut Gen, t: &'t Tree, src: &Source, stats: &mu
 	ret
 }
 
-fn one_case(rec: &mut Rec, g: &mut Gen, t: &Tree, stats: &mut Stats, polls: u64, fail_p: u64, force_start: Option<usize>) {
+fn one_case(rec: &mut Rec, g: &mut Gen, t: &Tree, stats: &mut Stats, polls: u64, fail_p: u64, force_start: Option<usize>, bitcoin: bool) {
 	let mut c = Case { rec, log: vec![], fp: 0 };
 	emit_tree(&mut c, t);
+	let network = if bitcoin { Network::Bitcoin } else { Network::Regtest };
+	c.dir(format!("net {}", bitcoin as u8));
+	if bitcoin { *c.rec.classes.entry("case+network-bitcoin".to_string()).or_insert(0) += 1; }
 	let src = Source::new(t);
 	let all: Vec<usize> = t.blocks.iter().map(|b| b.id).collect();
 	let mode = if force_start.is_some() { 0 } else { g.rng.below(3) };
@@ -441,19 +457,19 @@ fn one_case(rec: &mut Rec, g: &mut Gen, t: &Tree, stats: &mut Stats, polls: u64,
 		let start = force_start.unwrap_or_else(|| if g.rng.chance(1, 2) { *g.rng.pick(&t.tips()) } else { *g.rng.pick(&all) });
 		c.dir(format!("client {}", start));
 		let listener = RecListener::new(t);
-		let mut client = SpvClient::new(t.validated(start), ChainPoller::new(&src, Network::Regtest), HeaderCache::new(), &listener);
+		let mut client = SpvClient::new(t.validated(start), ChainPoller::new(&src, network), HeaderCache::new(), &listener);
 		let mut chain = t.path(start);
-		run_polls(&mut c, g, t, &mut client, &src, &listener, &mut chain, polls, stats, fail_p);
+		run_polls(&mut c, g, t, &mut client, &src, &listener, &mut chain, polls, stats, fail_p, bitcoin);
 	} else {
 		let n_init = g.rng.range(1, 2);
 		let mut last = None;
-		for _ in 0..n_init { last = run_init(&mut c, g, t, &src, stats, fail_p); }
+		for _ in 0..n_init { last = run_init(&mut c, g, t, &src, stats, fail_p, network); }
 		if let Some((cache, hdr, bid)) = last {
 			c.dir("clientinit".into());
 			let listener = RecListener::new(t);
-			let mut client = SpvClient::new(hdr, ChainPoller::new(&src, Network::Regtest), cache, &listener);
+			let mut client = SpvClient::new(hdr, ChainPoller::new(&src, network), cache, &listener);
 			let mut chain = t.path(bid);
-			run_polls(&mut c, g, t, &mut client, &src, &listener, &mut chain, polls.min(4), stats, fail_p);
+			run_polls(&mut c, g, t, &mut client, &src, &listener, &mut chain, polls.min(4), stats, fail_p, bitcoin);
 		}
 	}
 }
@@ -472,14 +488,16 @@ fn main() {
 		let uniform = g.rng.chance(1, 2);
 		let (main_len, forks) = (g.rng.range(1, 24), g.rng.below(5));
 		let t = g.tree(main_len, forks, max_depth, uniform);
-		one_case(&mut rec, &mut g, &t, &mut stats, 6, 4, None);
+		let bitcoin = g.rng.chance(1, 5);
+		one_case(&mut rec, &mut g, &t, &mut stats, 6, 4, None, bitcoin);
 	}
 	// (2) medium trees: start-up syncs longer than one fetch batch (36), long stale forks
 	for _ in 0..n_medium {
 		let (main_len, forks) = (g.rng.range(40, 130), g.rng.below(4));
 		let uni = g.rng.chance(1, 2);
 		let t = g.tree(main_len, forks, 90, uni);
-		one_case(&mut rec, &mut g, &t, &mut stats, 4, 6, None);
+		let bitcoin = g.rng.chance(1, 6);
+		one_case(&mut rec, &mut g, &t, &mut stats, 4, 6, None, bitcoin);
 	}
 	// (3) deep trees: reorgs deeper than the header cache (HEADER_CACHE_LIMIT): the client connects
 	//     more than LIMIT blocks on one branch (cache evicts the fork point), then the other branch wins
@@ -497,6 +515,7 @@ fn main() {
 		let mut c = Case { rec: &mut rec, log: vec![], fp: i };
 		emit_tree(&mut c, &t);
 		let src = Source::new(&t);
+		c.dir("net 0".into());
 		c.dir(format!("client {}", stem));
 		let listener = RecListener::new(&t);
 		let mut client = SpvClient::new(t.validated(stem), ChainPoller::new(&src, Network::Regtest), HeaderCache::new(), &listener);
@@ -513,7 +532,31 @@ fn main() {
 			let op = format!("poll {:x}", c.fp);
 			c.rec.case(&op, ans.trim_end(), "poll:better:long-extension", true);
 		}
-		run_polls(&mut c, &mut g, &t, &mut client, &src, &listener, &mut chain, 4, &mut stats, 5);
+		run_polls(&mut c, &mut g, &t, &mut client, &src, &listener, &mut chain, 4, &mut stats, 5, false);
+	}
+	// (4) Network::Bitcoin across a retarget height: check_builds_on's difficulty rules (equal bits except at multiples
+	//     of 2016, there only within the 4x window) decide which branches the poller accepts
+	let n_ret = if args.thorough { 150 * args.scale } else { 14 * args.scale };
+	const RBITS: [u32; 7] = [0x207fffff, 0x203fffff, 0x201fffff, 0x200fffff, 0x2100ffff, 0x2007ffff, 0x207ffffe];
+	for _ in 0..n_ret {
+		let mut t = Tree::new();
+		let gen = t.mine(0, BITS[0], false);
+		let stem_len = 2011 + g.rng.below(3);
+		let stem = g.extend(&mut t, gen, stem_len, true);
+		let branches = g.rng.range(2, 3);
+		for _ in 0..branches {
+			let change_at = *g.rng.pick(&[2015u32, 2016, 2016, 2016, 2016, 2017]);
+			let newbits = *g.rng.pick(&RBITS);
+			let top = 2017 + g.rng.below(3) as u32;
+			let mut cur = stem;
+			while t.get(cur).height < top {
+				let h = t.get(cur).height + 1;
+				let full = g.rng.chance(1, 2);
+				cur = t.mine(cur, if h >= change_at { newbits } else { BITS[0] }, full);
+			}
+		}
+		*rec.classes.entry("case+retarget-tree".to_string()).or_insert(0) += 1;
+		one_case(&mut rec, &mut g, &t, &mut stats, 5, 3, Some(stem), true);
 	}
 	rec.notes.insert("rule".into(), "every poll/init op is distinct by the fingerprint of its whole case history (tree, tips, schedules, earlier answers); non-trivial = the listener was notified or a scheduled source failure was hit".into());
 	rec.notes.insert("max_fork_depth".into(), format!("{} (HEADER_CACHE_LIMIT = {})", stats.max_fork_depth, HEADER_CACHE_LIMIT));
